@@ -17,14 +17,17 @@ from vlib import universe as U
 # interfaces: IA, IB(IA), IC, ID(IB, IC)
 ISHAPE = ((), (0,), (), (1, 2))
 NI = 4
-# classes: K0, K1(K0), K2(K0), K3(K1, K2); slot 4 = S(K1) created by a 'newsub*' op
-CBASES = {0: (), 1: (0,), 2: (0,), 3: (1, 2), 4: (1,)}
+# classes: K0, K1(K0), K2(K0), K3(K1, K2), K4(K1, K0); slot 5 = S(K1) created by a 'newsub*' op
+CBASES = {0: (), 1: (0,), 2: (0,), 3: (1, 2), 4: (1, 0), 5: (1,)}
+NC = 6
+SLOT_S = 5
 # objects: index -> class index (or ('class', k) for a class used as an object)
-OBJ_CLS = {0: 1, 1: 1, 2: 2, 3: 3, 4: 1, 5: ('class', 1), 6: 4}
+OBJ_CLS = {0: 1, 1: 1, 2: 2, 3: 3, 4: 1, 5: ('class', 1), 6: 5, 7: 4}
+NO = 8
 OBJ_NAME = {0: 'a1=K1()', 1: 'a2=K1()', 2: 'b=K2()', 3: 'd=K3()', 4: 'e=K1() [created by newinst]',
-            5: 'K1 (the class as an object)', 6: 's=S() [created by newsub]'}
+            5: 'K1 (the class as an object)', 6: 's=S() [created by newsub]', 7: 'f=K4()'}
 INAME = ['IA', 'IB', 'IC', 'ID']
-CNAME = ['K0', 'K1', 'K2', 'K3', 'S']
+CNAME = ['K0', 'K1', 'K2', 'K3', 'K4', 'S']
 
 ICLOS = []
 for i in range(NI):
@@ -44,7 +47,7 @@ def closure(s):
 # ---------------------------------------------------------------------------
 
 def init_state():
-    return (tuple(frozenset() for _ in range(5)), (True,) * 5, tuple(frozenset() for _ in range(7)))
+    return (tuple(frozenset() for _ in range(NC)), (True,) * NC, tuple(frozenset() for _ in range(NO)))
 
 
 def implements(st, c, memo=None):
@@ -128,14 +131,15 @@ class Universe:
         K1 = type('K1', (K0,), {})
         K2 = type('K2', (K0,), {})
         K3 = type('K3', (K1, K2), {})
-        self.K = [K0, K1, K2, K3, None]
-        self.obj = [K1(), K1(), K2(), K3(), None, K1, None]
+        K4 = type('K4', (K1, K0), {})
+        self.K = [K0, K1, K2, K3, K4, None]
+        self.obj = [K1(), K1(), K2(), K3(), None, K1, None, K4()]
 
     def live_objs(self):
-        return [o for o in range(7) if self.obj[o] is not None]
+        return [o for o in range(NO) if self.obj[o] is not None]
 
     def live_classes(self):
-        return [c for c in range(5) if self.K[c] is not None]
+        return [c for c in range(NC) if self.K[c] is not None]
 
 
 def observe(u):
@@ -225,7 +229,7 @@ def apply_real(u, op):
             S = implementer_only(u.I[op[2]])(S)
         elif op[1] == 'prov':
             S = provider(u.I[op[2]])(S)
-        u.K[4] = S
+        u.K[SLOT_S] = S
         u.obj[6] = S()
     elif k == 'newinst':
         u.obj[4] = u.K[1]()
@@ -239,7 +243,7 @@ def apply_real(u, op):
 def needs(op):
     """Dynamic slots an op refers to: ('K',4) / ('o',4) / ('o',6)."""
     k = op[0]
-    if k in ('classImplements', 'classImplementsFirst', 'classImplementsOnly') and op[1] == 4:
+    if k in ('classImplements', 'classImplementsFirst', 'classImplementsOnly') and op[1] == SLOT_S:
         return 'S'
     if k in ('directlyProvides', 'alsoProvides', 'noLongerProvides'):
         if op[1] == 4:
@@ -285,7 +289,7 @@ def run_history(ops):
         hist.append(fmt_op(op))
         if op[0] == 'newsub' and op[1] is not None:
             # @provider declares on the class S as an object, which is not in the observed pool
-            mop = {'impl': ('implementer', 4, op[2]), 'only': ('implementer_only', 4, op[2]),
+            mop = {'impl': ('implementer', SLOT_S, op[2]), 'only': ('implementer_only', SLOT_S, op[2]),
                    'prov': ('query',)}[op[1]]
             states = step(states, mop)
         else:
@@ -323,12 +327,12 @@ def run_history(ops):
 
 def alphabet(full):
     ops = []
-    if full:
+    if full is True:
         for kind in ('classImplements', 'classImplementsOnly', 'classImplementsFirst'):
-            for c in range(5):
+            for c in range(NC):
                 for i in range(NI):
                     ops.append((kind, c, i))
-        for o in range(7):
+        for o in range(NO):
             ops.append(('directlyProvides', o, ()))
             for i in range(NI):
                 ops.append(('directlyProvides', o, (i,)))
@@ -338,20 +342,21 @@ def alphabet(full):
         for v in (None, 'impl', 'only', 'prov'):
             ops.append(('newsub', v, 2))
         ops += [('newinst',), ('query',)]
+    elif full == 'narrowing':
+        ops += [('classImplements', 0, 1), ('classImplements', 1, 0), ('classImplementsOnly', 0, 2),
+                ('classImplementsOnly', 1, 2), ('classImplementsOnly', 1, 0),
+                ('directlyProvides', 0, (0,)), ('directlyProvides', 1, (0,)), ('directlyProvides', 0, (1,)),
+                ('alsoProvides', 0, 1), ('alsoProvides', 1, 0), ('noLongerProvides', 0, 0), ('directlyProvides', 0, ()),
+                ('query',)]
     else:
-        for c in (0, 1):
-            for i in (0, 1, 2):
-                ops.append(('classImplements', c, i))
-            for i in (0, 2):
-                ops.append(('classImplementsOnly', c, i))
-        ops += [('classImplementsFirst', 1, 1), ('classImplementsFirst', 1, 2)]
-        ops += [('directlyProvides', 0, (0,)), ('directlyProvides', 0, (1,)), ('directlyProvides', 1, (0,)),
-                ('directlyProvides', 1, (1,)), ('directlyProvides', 3, (2,)), ('directlyProvides', 0, ()),
-                ('directlyProvides', 5, (2,)),
+        ops += [('classImplements', 0, 0), ('classImplements', 0, 1), ('classImplements', 1, 0), ('classImplements', 1, 2),
+                ('classImplements', 4, 2), ('classImplementsOnly', 0, 2), ('classImplementsOnly', 1, 0),
+                ('classImplementsOnly', 1, 2), ('classImplementsFirst', 1, 1), ('classImplements', SLOT_S, 2),
+                ('directlyProvides', 0, (0,)), ('directlyProvides', 0, (1,)), ('directlyProvides', 1, (0,)),
+                ('directlyProvides', 3, (2,)), ('directlyProvides', 0, ()), ('directlyProvides', 5, (2,)),
                 ('alsoProvides', 0, 1), ('alsoProvides', 0, 2), ('alsoProvides', 3, 1),
-                ('noLongerProvides', 0, 0), ('noLongerProvides', 0, 1),
-                ('newsub', None, 2), ('newsub', 'only', 2), ('newinst',), ('query',),
-                ('classImplements', 4, 2), ('directlyProvides', 4, (0,))]
+                ('noLongerProvides', 0, 0), ('noLongerProvides', 0, 1), ('directlyProvides', 4, (0,)),
+                ('newsub', None, 2), ('newsub', 'only', 2), ('newinst',), ('query',)]
     return ops
 
 
@@ -359,18 +364,14 @@ def make_e(params, part, nparts):
     alpha = alphabet(params.get('full', False))
     NA = len(alpha)
     L = params['L']
-    exact = params.get('exact_len', False)
-    need_only = params.get('need_only', False)
 
-    def h(n: int, o1: int, o2: int, o3: int, o4: int):
+    def h(n: int, o1: int, o2: int, o3: int, o4: int, o5: int):
         c1 = pick(o1, NA)
         assume(c1 % nparts == part)
-        ln = L if exact else pick(n, L) + 1
-        idx = [c1] + [pick(o, NA) for o in (o2, o3, o4)[:ln - 1]]
+        ln = pick(n, L) + 1
+        idx = [c1] + [pick(o, NA) for o in (o2, o3, o4, o5)[:ln - 1]]
         ops = tuple(alpha[i] for i in idx)
         assume(valid_history(ops))
-        if need_only:
-            assume(any(o[0] == 'classImplementsOnly' for o in ops))
         reached(tuple(idx), dict(history=[fmt_op(o) for o in ops]))
         native(run_history, ops)
     return h
@@ -395,26 +396,28 @@ _B = ('classes K0, K1(K0), K2(K0), K3(K1,K2), dynamically created S(K1) (plain /
 HARNESSES = [
     Harness('e_decl_reduced', make_e, kind='E', impls=('py', 'c'),
             tiers=dict(quick=dict(budget_s=150, parts=16, params=dict(L=3)),
-                       thorough=dict(budget_s=2400, parts=16, params=dict(L=4))),
+                       thorough=dict(budget_s=3000, parts=16, params=dict(L=4), impls=('py',))),
             encoded=_ENC,
-            bounds=_B + 'every history of <=3 (thorough 4) ops from a 34-op alphabet (class declarations on K0/K1/S, instance declarations '
-                        'on both K1 instances, the K3 instance, the class object, creation of S / a late instance, query-all)',
+            bounds=_B + 'every history of <=3 (thorough 4, pure-Python build) ops from a 26-op alphabet (class declarations on K0/K1/K4/S, '
+                        'instance declarations on both K1 instances, the K3 instance, a late instance, the class object, creation of S / a late '
+                        'instance, query-all)',
             outside='histories longer than the bound; classes whose __bases__ are reassigned; security proxies; Interface itself as a declared interface',
             oracle='non-deterministic set model from the statement (declared/inherit per class, direct per object; a declaration implied at the '
                    'moment it is made may be kept or dropped); every observation must be consistent with one admissible state'),
-    Harness('e_decl_only_slice', make_e, kind='E', impls=('py',),
-            tiers=dict(quick=dict(budget_s=150, parts=16, params=dict(L=4, exact_len=True, need_only=True, slice=True)),
-                       thorough=dict(budget_s=60, parts=16, params=dict(L=1))),
+    Harness('e_decl_narrowing', make_e, kind='E', impls=('py', 'c'),
+            tiers=dict(quick=dict(budget_s=150, parts=13, params=dict(L=4, full='narrowing'), impls=('py',)),
+                       thorough=dict(budget_s=2400, parts=13, params=dict(L=5, full='narrowing'))),
             encoded=_ENC,
-            bounds=_B + 'quick tier only: the length-4 histories of the reduced alphabet that contain a classImplementsOnly '
-                        '(budget-limited, reported non-exhaustive when the budget ends first); the thorough tier covers all of L<=4 in e_decl_reduced',
+            bounds=_B + 'every history of <=4 (thorough 5, both builds) ops from a 13-op alphabet that interleaves instance declarations on two '
+                        'instances of one class with widening and narrowing (classImplementsOnly) of that class and of its base',
             oracle='as e_decl_reduced'),
     Harness('e_decl_full', make_e, kind='E', impls=('py', 'c'),
-            tiers=dict(quick=dict(budget_s=100, parts=16, params=dict(L=2, full=True)),
-                       thorough=dict(budget_s=3000, parts=16, params=dict(L=3, full=True))),
+            tiers=dict(quick=dict(budget_s=150, parts=16, params=dict(L=2, full=True), impls=('py',)),
+                       thorough=dict(budget_s=3000, parts=16, params=dict(L=2, full=True))),
             encoded=_ENC,
-            bounds=_B + 'every history of <=2 (thorough 3) ops from the full 150-op alphabet (3 class-declaration forms x 5 classes x 4 '
-                        'interfaces, 3 instance-declaration forms x 7 objects x 4 interfaces + clearing, 4 ways of creating S, late instance, query)',
+            bounds=_B + 'every history of <=2 ops from the full 183-op alphabet (3 class-declaration forms x 6 classes x 4 interfaces, 3 '
+                        'instance-declaration forms x 8 objects x 4 interfaces + clearing, 4 ways of creating S, late instance, query); '
+                        'quick: pure-Python build, thorough: both builds',
             oracle='as e_decl_reduced'),
 ]
 
